@@ -724,13 +724,13 @@ Qed.
 Definition nest_pattern (d : nat) (p : pattern) : bool := ml_pattern (eokn d) p.
 Definition nest_resource (d : nat) (t : resource) : bool := ml_resource (eokn d) t.
 
-Theorem parse_render_nest_split d cs t : nest_resource d t = true ->
+Theorem parse_render_nest_split d cs t : nest_resource d t = true -> last_comment_ok t = true ->
   exists t', parse (render cs t) = Done (t', []) /\ Forall2 (rel_entry (srel (goodn d))) t' t.
 Proof.
   destruct (facts_alln d) as (_ & R & J & W & P). apply (parse_render_ml_split (eokn d) (etextn d) (goodn d)); assumption.
 Qed.
 
-Theorem parse_render_nest d cs t : nest_resource d t = true ->
+Theorem parse_render_nest d cs t : nest_resource d t = true -> last_comment_ok t = true ->
   exists t', parse (render cs t) = Done (t', []) /\ map join_entry t' = t.
 Proof.
   destruct (facts_alln d) as (_ & R & J & W & P). apply (parse_render_ml (eokn d) (etextn d) (goodn d)); assumption.
